@@ -1809,6 +1809,10 @@ def rule_L5(ctx, L):
             elif not _contains(dp.get("value"), rec):
                 why = "data point value is not computed from the record of the enumerated mutation"
             ctx.check(why is None, "L5", "data point i carries the name and record of the i-th mutation (%s)" % lab, where, why or "", construct=C, stmt="name " + lab)
+        elif "no cluster" in lab:
+            # the arm without a cluster file does not enumerate the mutation mapping itself (a helper that re-packs it,
+            # a generator of pairs): neither the per-mutation nor the per-cluster obligation describes it
+            raise Unsupported("data points (%s) are enumerated from %s, not from the mutation mapping" % (lab, show(inner, 3)))
         else:
             st = T.order(inner)
             src = inner
